@@ -302,7 +302,7 @@ func TestVerifC14Fault(t *testing.T) {
 	defer r.Finish("real GroupCoordinator over the real InMemoryStore behind a fault-injecting store and the recording decorator, synctest virtual time, one request at a time, 2-4 members. PRNG histories, half of them random op lists (join new/existing/forgotten id/changed subscription, sync, heartbeat, leave, time advances incl. session and rebalance-deadline expiry, settle rounds) with each request or advance faulted with probability 0.15, half of them phase-structured (group forming / all re-joined but leader not synced / stable / disturbed by a leave, a new member or a changed subscription with all or only some members re-joined; then a FAULTED request: re-join, join of a new member, join with changed subscription, leader sync, sync, heartbeat, leave; then another request or an expiry, sometimes faulted; then settle rounds, heartbeat-and-react rounds or random ops). "+c14FaultRule+" non-trivial = case in which a store call was failed and afterwards a >=2-member generation completed",
 		"'has joined the current generation' = the member's latest JoinGroup reply carried that generation, or its latest reply without an error code did, or an error-answered (UNKNOWN_SERVER_ERROR after a failed write) join since did",
 		"transient = the store works again for the next request; what must hold while a write is still failing is not judged (replies -1)")
-	n := r.N(600, 12000)
+	n := r.N(600, 8000)
 	for ci := 0; ci < n; ci++ {
 		rng := r.Rand(ci)
 		cfg, ops := c14GenFaultCase(rng, ci, fmt.Sprintf("f%d", ci))
@@ -320,12 +320,12 @@ func TestVerifC14Fault(t *testing.T) {
 		}
 	}
 	r.Floor("join_replies", 2000)
-	r.Floor("store_calls_failed", int64(r.N(400, 8000)))
-	r.Floor("store_calls_failed_put_lost", int64(r.N(200, 4000)))
-	r.Floor("store_calls_failed_put_applied", int64(r.N(50, 1000)))
-	r.Floor("store_calls_failed_delete_lost", int64(r.N(3, 60)))
-	r.Floor("store_call_failed_while_stored_generation_was_preparing_with_a_member_not_rejoined", int64(r.N(60, 1200)))
-	r.Floor("generations_completed_multi_member_after_a_store_fault", int64(r.N(150, 3000)))
+	r.Floor("store_calls_failed", int64(r.N(400, 5000)))
+	r.Floor("store_calls_failed_put_lost", int64(r.N(200, 2500)))
+	r.Floor("store_calls_failed_put_applied", int64(r.N(50, 600)))
+	r.Floor("store_calls_failed_delete_lost", int64(r.N(3, 40)))
+	r.Floor("store_call_failed_while_stored_generation_was_preparing_with_a_member_not_rejoined", int64(r.N(60, 800)))
+	r.Floor("generations_completed_multi_member_after_a_store_fault", int64(r.N(150, 2000)))
 	r.Floor("group_states_in_which_a_store_call_failed", 4) // absent, preparing_rebalance, completing_rebalance, stable
 	r.Floor("sync_after_completion_judged", 200)
 	r.Exhaustive(false)
@@ -358,7 +358,7 @@ func TestVerifC14FaultEnum(t *testing.T) {
 	lost, applied, read := c14Fault{Writes: "lost"}, c14Fault{Writes: "applied"}, c14Fault{Reads: true}
 	kinds3, kinds4 := []c14Fault{lost}, []c14Fault{lost}
 	if r.Thorough() {
-		kinds3, kinds4 = []c14Fault{lost, applied, read}, []c14Fault{lost, applied}
+		kinds3 = []c14Fault{lost, applied, read}
 	}
 	starts := []start{
 		{"empty", nil, 3, kinds3},
